@@ -30,6 +30,19 @@ var c08IllFormed = []string{
 	"/{a: /[/}", "/{a: /(/}", "/{a: /)(/}", "/x{a: /*/}", "/{a: /a/, b: /(/}", "/{a: /a)(b/}{c}",
 }
 
+// bind reuse for every (ancestor kind x descendant kind) pair, descendant final or followed by more
+func c08BindReuse() []string {
+	anc := []string{"{a}", "{a: /x/}", "x{a}", "{a: **}", "{a: /x/}-{b}"}
+	desc := []string{"{a}", "{a: /y/}", "y{a}", "{a: **}", "{c: /y/, a: /z/}"}
+	var out []string
+	for _, an := range anc {
+		for _, de := range desc {
+			out = append(out, "/"+an+"/"+de, "/"+an+"/m/"+de, "/"+an+"/"+de+"/z", "/p/"+an+"/m/"+de+"/z")
+		}
+	}
+	return out
+}
+
 var c08Ungrammatical = []string{
 	"", "a", "a/b", "/a{", "/{a", "/{a:}", "/a?", "/{a: /x}", "/{}", "/a b", "/{a: b c}", "/a/{", "/}", "/{a}}", "/a:b", "/[a]", "/a,b",
 	"/{a: /x//}", "/{a: //}", "/{a :b}", "/{a: /x/ }", "/a\t", "/{a:\tb}", "/{a: /x/b: /y/}", "/{a,b}", "/{a: /x/,}", "/\x00", "/\xff",
@@ -68,6 +81,7 @@ func c08Catalogue(p *route.Parser) []c08Entry {
 	}
 	add(c08WellFormed)
 	add(c08IllFormed)
+	add(c08BindReuse())
 	add(c08Ungrammatical)
 	add(c08Other)
 	return out
@@ -208,25 +222,35 @@ func c08Run(r *core.Run) {
 			alone[i] = v
 		}
 	}
-	total := n * n * n
-	if !r.Thorough() {
-		// quick: pairs fully, triples with the first route drawn from every 3rd entry
-		total = n * n * n
+	// only routes that register on an empty tree can be part of a history prefix
+	var pre []int
+	for i := range cat {
+		if alone[i] == "accept" {
+			pre = append(pre, i)
+		}
 	}
+	r.Bounds["prefix_capable_routes"] = len(pre)
+	np := len(pre) + 1 // index 0 = absent
 	r.Parallel(func(w, nw int, l *core.Local) {
 		m := ref.NewMatcher()
-		// histories are enumerated as (i, j, k) with i, j in [-1, n): -1 = absent (only leading)
-		for c := w; c < (n+1)*(n+1)*n; c += nw {
+		for c := w; c < np*np*n; c += nw {
 			if c%256 == 0 && r.Expired() {
 				return
 			}
 			k := c % n
-			j := (c/n)%(n+1) - 1
-			i := c/(n*(n+1)) - 1
-			if i >= 0 && j < 0 {
+			jj := (c / n) % np
+			ii := c / (n * np)
+			if ii > 0 && jj == 0 {
 				continue // canonical: absent slots lead
 			}
-			if !r.Thorough() && i >= 0 && (i%3 != 0) {
+			i, j := -1, -1
+			if ii > 0 {
+				i = pre[ii-1]
+			}
+			if jj > 0 {
+				j = pre[jj-1]
+			}
+			if !r.Thorough() && ii > 0 && (ii%3 != 0) {
 				continue
 			}
 			tree, trie := route.NewTree(), ref.NewTrie()
@@ -262,18 +286,23 @@ func c08Run(r *core.Run) {
 			}
 		}
 	})
-	_ = total
 
 	// flame level: methods, panics
 	methods := []string{"GET", "POST", "PUT", "DELETE", "PATCH", "OPTIONS", "HEAD", "CONNECT", "TRACE", "*", "get", "BREW", "", "GET,POST", " GET"}
 	r.Bounds["flame_methods"] = methods
 	r.Parallel(func(w, nw int, l *core.Local) {
-		for c := w; c < (n+1)*n; c += nw {
+		for c := w; c < np*n; c += nw {
 			if c%64 == 0 && r.Expired() {
 				return
 			}
 			k := c % n
-			j := c/n - 1
+			j := -1
+			if jj := c / n; jj > 0 {
+				j = pre[jj-1]
+				if !r.Thorough() && jj%2 == 0 {
+					continue
+				}
+			}
 			for mi, meth := range methods {
 				for _, firstMeth := range []string{"GET", "*"} {
 					if j < 0 && firstMeth == "*" {
